@@ -86,6 +86,9 @@ def coerce(val, dt, guard=True, rt=None, record=True):
         if k in "mM" or dt.itemsize == 8:
             # 64-bit accumulators: wrap-around beyond the 64-bit range is outside every claim (inputs are bounded
             # instead); concrete runs wrap like the hardware so that translator validation compares like with like
+            if is_sym(val) and record and rt is not None and getattr(rt, "check_int_overflow", False) and k in "iu":
+                lo64, hi64 = (0, 2**64 - 1) if k == "u" else (-2**63, 2**63 - 1)
+                rt.obligations.append(("int_overflow", guard, z3.And(val >= lo64, val <= hi64), rt.where() + f":{dt}"))
             if not is_sym(val):
                 val = int(val)
                 if k == "u":
@@ -650,7 +653,13 @@ def _num(x):
 
 def _add(a, b): return _num(a) + _num(b)
 def _sub(a, b): return _num(a) - _num(b)
-def _mul(a, b): return _num(a) * _num(b)
+def _mul(a, b):
+    a, b = _num(a), _num(b)
+    r = a * b
+    if is_sym(r) and z3.is_int(r):
+        from .values import _int_overflow_obligation
+        _int_overflow_obligation(r)
+    return r
 
 
 def _floordiv(a, b):
